@@ -361,11 +361,17 @@ func (f *file) ReadDir(n int) ([]hackpadfs.DirEntry, error) {
 	if err != nil {
 		return nil, &hackpadfs.PathError{Op: "readdir", Path: f.path, Err: err}
 	}
-	start, end := f.offset, f.offset+int64(n)
-	if n <= 0 {
-		start, end = 0, int64(len(dirNames))
-	} else if end > int64(len(dirNames)) {
-		end = int64(len(dirNames))
+	total := int64(len(dirNames))
+	if n > 0 && f.offset >= total {
+		return nil, io.EOF
+	}
+	start := f.offset
+	if start > total {
+		start = total
+	}
+	end := start + int64(n)
+	if n <= 0 || end > total {
+		end = total
 	}
 	offsetAdd := end - start
 
